@@ -351,7 +351,7 @@ def fresh_of_type(ty, sym, hint="r"):
 
 
 
-STATEFUL_CALL = re.compile(r"Vec::<.*>::(set_len|clear|reserve|reserve_exact|drain|truncate|push|pop|insert|remove|append|extend\w*|shrink_to_fit|swap_remove|resize\w*)|core::mem::(swap|replace|take)::<")
+STATEFUL_CALL = re.compile(r"Vec::<.*>::(set_len|clear|reserve|reserve_exact|drain|truncate|push|pop|insert|remove|append|extend\w*|shrink_to_fit|swap_remove|resize\w*)|<Vec<.*> as Extend<|core::mem::(swap|replace|take)::<")
 
 
 def loop_info(f):
@@ -705,6 +705,21 @@ class Exec:
         return results
 
     def _block(self, f, bb, st, results, visited, depth):
+        """One basic block and everything after it on this path. In tolerant mode (`cut_loops`) a
+        construct outside the subset ends *this path* as `cut` (not decided) instead of aborting the
+        whole kernel; the other paths are still decided."""
+        if not getattr(self, "cut_loops", False) or getattr(self, "unroll", 0):
+            return self._block_inner(f, bb, st, results, visited, depth)
+        try:
+            return self._block_inner(f, bb, st, results, visited, depth)
+        except Unsupported as e:
+            if str(e) == "path explosion":
+                raise
+            self.unsupported_paths = getattr(self, "unsupported_paths", [])
+            self.unsupported_paths.append(str(e)[:160])
+            results.append(Outcome("cut", st, msg="outside the MIR subset: " + str(e)[:160]))
+
+    def _block_inner(self, f, bb, st, results, visited, depth):
         unroll = getattr(self, "unroll", 0)
         if unroll:
             # bounded unrolling: a block may be entered `unroll` times on one path; beyond that the path is
@@ -1315,7 +1330,7 @@ STD_MODELS = [
     (r"^<core::ops::Range<usize> as Iterator>::next$", model_range_iter("next")),
     (r"^<Rev<core::ops::Range<usize>> as Iterator>::next$", model_range_iter("next_back")),
     (r"slice::<impl \[.*\]>::copy_within::<", model_slice_copy_within),
-    (r"slice::<impl \[.*\]>::(copy_from_slice|clone_from_slice|swap_with_slice)$", model_pure),
+    (r"slice::<impl \[.*\]>::(copy_from_slice|clone_from_slice|swap_with_slice|rotate_left|rotate_right|reverse|swap)$", model_pure),
     (r"^core::mem::take::<", model_mem_take),
     (r"^core::mem::swap::<", model_mem_swap),
     (r"slice::<impl \[.*\]>::as_(mut_)?ptr$", model_as_ptr),
@@ -1336,7 +1351,7 @@ STD_MODELS = [
     (r"num::<impl usize>::wrapping_sub", model_wrapping("sub")),
     (r"Option::<.*>::unwrap$|Option::<.*>::expect$", model_unwrap),
     (r"^(core::option::)?Option::<usize>::(and_then|map|unwrap_or|unwrap_or_else|map_or|is_some|is_none|unwrap_or_default)(::<.*>)?$", model_option_combinator),
-    (r"^core::bool::<impl bool>::(then|then_some)::<usize", model_option_combinator),
+    (r"^core::bool::<impl bool>::(then|then_some)::<", model_option_combinator),
     (r"<Vec<.*> as Deref>::deref$|<Vec<.*> as DerefMut>::deref_mut$|Vec::<.*>::as_slice|Vec::<.*>::as_mut_slice", model_deref_vec),
     (r"Vec::<.*>::len$|slice::<impl \[.*\]>::len$", model_len),
     (r"slice::<impl \[.*\]>::is_empty$", model_is_empty),
